@@ -13,7 +13,8 @@
      defx   [Stores -> Seq(BOOLEAN)]         which of the platform's default locations exist (ordered)
      val    the alphabet of the values of the non-default sources:
             "plain"; "pct" = a '%' inside every value (IPv6 zone id "%25eth0" in the transport host, '%' in store
-            directory names); "punct" = store directory names holding ' ', '=', '#', ';'; "foreigntpm" = the tpm
+            directory names); "punct" = store directory names holding ' ', '=', ' #', ' ;' (what an inline-comment or
+            split-at-'=' parser would cut); "foreigntpm" = the tpm
             value names a private-key store of ANOTHER platform ('tpm-osxkeychain:' / 'tpm-cng:' on Linux).
             Which source wins and how a location resolves never depends on the characters of a value.
 
